@@ -543,7 +543,7 @@ impl S3 for FileSystem {
         }
 
         let object_path = self.get_object_path(&bucket, &key)?;
-        let mut file_writer = self.prepare_file_write(&object_path).await?;
+        let mut file_writer = self.prepare_file_write(&object_path)?;
 
         let mut md5_hash = Md5::new();
         let stream = body.inspect_ok(|bytes| {
@@ -658,7 +658,7 @@ impl S3 for FileSystem {
         let mut md5_hash = Md5::new();
         let stream = body.inspect_ok(|bytes| md5_hash.update(bytes.as_ref()));
 
-        let mut file_writer = self.prepare_file_write(&file_path).await?;
+        let mut file_writer = self.prepare_file_write(&file_path)?;
         let size = copy_bytes(stream, file_writer.writer()).await?;
         file_writer.done().await?;
 
@@ -730,7 +730,7 @@ impl S3 for FileSystem {
         let mut md5_hash = Md5::new();
         let stream = body.inspect_ok(|bytes| md5_hash.update(bytes.as_ref()));
 
-        let mut file_writer = self.prepare_file_write(&dst_path).await?;
+        let mut file_writer = self.prepare_file_write(&dst_path)?;
         let size = copy_bytes(stream, file_writer.writer()).await?;
         file_writer.done().await?;
 
@@ -852,7 +852,7 @@ impl S3 for FileSystem {
             }
         }
 
-        let mut file_writer = self.prepare_file_write(&object_path).await?;
+        let mut file_writer = self.prepare_file_write(&object_path)?;
         for (_, part_path, _) in &parts {
             let mut reader = try_!(fs::File::open(part_path).await);
             let size = try_!(tokio::io::copy(&mut reader, &mut file_writer.writer()).await);
